@@ -1,6 +1,7 @@
 SPECIFICATION Spec
 CONSTANT Which = "C13"
 CONSTANT TinyLen = 0
+CONSTANT OwnTailLen = 6
 CONSTANT TailLen = 5
 CONSTANT SmallLen = 0
 CONSTANT AsBuilt = {}
